@@ -428,8 +428,39 @@ func (sl *StringLiteral) WriteTo(cw *CodeWriter) {
 	cw.AddMapping(sl.Token.Start)
 	// TODO: keep the original string token (' or ")
 	cw.WriteRune('"')
-	cw.WriteString(sl.Value)
+	cw.WriteString(escapeLiteral(sl.Value, '"'))
 	cw.WriteRune('"')
+}
+
+// escapeLiteral prepares a literal value for writing between the given
+// delimiters. Escape sequences kept by the lexer (a backslash and the character
+// after it) are copied; a raw delimiter, and for quoted strings a raw line
+// break (both can come from the other quote style or from decoded \x, \u
+// escapes), is escaped.
+func escapeLiteral(value string, delimiter byte) string {
+	var out []byte
+	for i := 0; i < len(value); i++ {
+		c := value[i]
+		switch {
+		case c == '\\' && i+1 < len(value):
+			out = append(out, c, value[i+1])
+			i++
+			// a line continuation may end in CR LF
+			if value[i] == '\r' && i+1 < len(value) && value[i+1] == '\n' {
+				out = append(out, '\n')
+				i++
+			}
+		case c == delimiter:
+			out = append(out, '\\', c)
+		case c == '\n' && delimiter != '`':
+			out = append(out, '\\', 'n')
+		case c == '\r' && delimiter != '`':
+			out = append(out, '\\', 'r')
+		default:
+			out = append(out, c)
+		}
+	}
+	return string(out)
 }
 
 func (sl *StringLiteral) Precedence() int {
@@ -445,7 +476,7 @@ func (sl *MultiStringLiteral) WriteTo(cw *CodeWriter) {
 	cw.WriteLeadingComments(sl.Token.LeadingComments)
 	cw.AddMapping(sl.Token.Start)
 	cw.WriteRune('`')
-	cw.WriteString(sl.Value)
+	cw.WriteString(escapeLiteral(sl.Value, '`'))
 	cw.WriteRune('`')
 }
 
